@@ -12,7 +12,7 @@ import os
 import re
 import sys
 
-REPO = "/repo/crates/lib/src"
+REPO = os.environ.get("VERIF_REPO", "/repo") + "/crates/lib/src"
 VERIF = os.path.dirname(os.path.dirname(os.path.abspath(__file__)))
 OUT = os.path.join(VERIF, "harness", "src", "generated")
 
